@@ -9,7 +9,13 @@ VARIABLE s
 \* shorter than the time a handler is held, and a multi-stream association
 Extra == {[conns |-> k, msgs |-> m, pattern |-> p, via |-> v, holdc |-> hc, holdi |-> hi, flavour |-> "req"] :
             k \in 1..2, m \in 2..3, p \in {"burst", "interleaved"}, v \in {"server+wt", "sctp"}, hc \in 0..1, hi \in 0..2}
-Init == s \in Extra \cup {[conns |-> k, msgs |-> m, pattern |-> p, via |-> v, holdc |-> hc, holdi |-> hi, flavour |-> fl] :
+\* "regpending": while the handler of connection 1's first message is held, the application registers a further
+\* handler on the mux (the registration waits for the held handler); the other connections' messages arrive only
+\* then.  Their dispatch may wait for the registration (ServeMux calls handlers under its read lock), but when it
+\* happens it is still one handler at a time per connection, in arrival order.
+RegPending == {[conns |-> k, msgs |-> m, pattern |-> "burst", via |-> v, holdc |-> 1, holdi |-> 1, flavour |-> "regpending"] :
+                 k \in 2..3, m \in 2..3, v \in {"server", "dial"}}
+Init == s \in Extra \cup RegPending \cup {[conns |-> k, msgs |-> m, pattern |-> p, via |-> v, holdc |-> hc, holdi |-> hi, flavour |-> fl] :
                  k \in 1..MaxConns, m \in 2..MaxMsgs, p \in {"burst", "bytes", "interleaved"}, v \in {"server", "dial", "tcp"},
                  hc \in 0..MaxConns, hi \in 0..MaxMsgs, fl \in {"req", "ans", "mixed", "dwr"}}
 Next == UNCHANGED s
